@@ -9,7 +9,7 @@ from ..values import *      # noqa
 from .. import contexts as C
 from .. import segmap as S
 from ..segmap import Seg
-from ..d1rules import check_sink, report_conflicts, blocked, psd_classes, ctor_args, PSD_FIELD
+from ..d1rules import unknown_blocking, check_sink, report_conflicts, blocked, psd_classes, ctor_args, PSD_FIELD
 
 PROP = 'C19'
 LEVEL = 'other'
@@ -86,8 +86,33 @@ def run(prog, rep, tier='quick'):
                         r.items[1].taint = r.items[1].taint | frozenset(['eigenvalues'])
                         return r
                     itp.summaries['mtm.dpss'] = dp
+                if method == 'adapt':
+                    for qn_ in ['mtm.pmtm'] + ['mtm.' + n_ for n_ in prog.modules['mtm'].funcs if n_.startswith('_')]:
+                        itp.capture_locals[qn_] = '*'
                 out, itp = C.run_function(prog, 'mtm', 'pmtm', [x], kw, itp=itp)
                 ctx = '%s,%s,%s' % (method, 'complex' if cplx else 'real', {False: 'computed', True: 'e/v given', 'both': 'e/v and NW given'}[given])
+                if method == 'adapt' and x.shape is not None and x.shape[0] is not None:
+                    # Thomson's broadband term uses sigma^2 = the MEAN SQUARE of the data: a scalar data energy (degree 2, no taper,
+                    # eigenvalue or NFFT dependence) that carries an explicit size normalisation is normalised by exactly N
+                    import sympy as sp_
+                    nsym = x.shape[0].to_sympy()
+                    for qn_, envs in itp.captured.items():
+                        for env_ in envs:
+                            for nm_, v_ in env_.items():
+                                if not (isinstance(v_, Num) and v_.shape == () and not v_.zero and deq(v_.deg['s'], 2) is True
+                                        and dzero(v_.deg['nfft']) is True and 'x' in v_.taint and tap_l not in v_.taint
+                                        and ev_l not in v_.taint and v_.sz is not None and v_.sz is not sp_.S.One):
+                                    continue
+                                szs = sp_.simplify(v_.sz * nsym)
+                                key_ = ('mean-square', qn_, nm_)
+                                if szs == 1 or key_ in seen:
+                                    continue
+                                if any(str(s_) not in (str(nsym),) for s_ in v_.sz.free_symbols):
+                                    continue        # another size (NFFT, number of tapers) enters: not the plain mean square
+                                seen.add(key_)
+                                rep.violation('weights', qn_, 'adapt noise floor: %s [%s]' % (nm_, ctx), 'the data energy is normalised by '
+                                              '%s, the mean square of an N-sample record divides by N: the broadband term (1 - eigenvalue) * '
+                                              'sigma^2 of Thomson\'s weights is off by the ratio' % sp_.simplify(1 / v_.sz), where)
                 n_f += 1
                 if blocked(rep, 'eigenspectra', f.qname, ctx, itp):
                     continue
@@ -215,7 +240,31 @@ def run(prog, rep, tier='quick'):
                     rep.violation('mean', cls.qname, ctx, ('the mean is not taken over the taper axis (reduced axis length %s, k = %s)' % (
                         [str(e[4][e[3]]) for e in red], kw['k'].a) if not okred else
                         'the stored PSD is not provably real and non-negative (complex=%s, real-valued=%s, >=0: %s)' % (psd.cplx, psd.rv, psd.nonneg)), cw)
-                calls = itp.watch[f.qname]
+                calls = list(itp.watch[f.qname])
+                if method == 'unity' and par == 'even':
+                    # the fold of real data follows the DATA, not the layout currently selected: the same object re-evaluated
+                    # after `sides` was switched stores an estimate of the same (folded / unfolded) length
+                    from ..core import St, PathEnd
+                    st2 = St({}, dict(itp.final_heap))
+                    callm = cls.find_method('__call__')
+                    try:
+                        itp.setattr_ref(ref, 'sides', Const('twosided'), st2, cls.node)
+                        itp.call_function(callm, [ref], {}, st2, callm.node)
+                        obj2 = st2.heap.get(ref.oid)
+                    except PathEnd:
+                        obj2 = None
+                    psd2 = obj2.f.get(PSD_FIELD) if obj2 is not None else None
+                    ctx2 = ctx + ', evaluated again after sides was switched'
+                    if isinstance(psd2, Num) and psd2.shape is not None and psd.shape is not None and len(psd2.shape) == 1 \
+                            and psd2.shape[0] is not None and psd.shape[0] is not None:
+                        if psd2.shape[0] == psd.shape[0]:
+                            rep.proved('mean', cls.qname, ctx2, 'the estimate has the same length (%s)' % psd.shape[0], cw)
+                        else:
+                            rep.violation('mean', cls.qname, ctx2, 'the estimate stored by __call__ has %s values, the first evaluation of the '
+                                          'same data gave %s: whether the spectrum of real data is doubled and folded depends on the layout '
+                                          'selected before the call, not on the data' % (psd2.shape[0], psd.shape[0]), cw)
+                    elif not unknown_blocking(itp):
+                        rep.undecided('mean', cls.qname, ctx2, 'no estimate of known length stored by the second call', cw)
                 if len(calls) == 1:
                     p = calls[0]['params']
                     bad = []
